@@ -456,6 +456,11 @@ def _r5_queue(ctx, rep) -> None:
         inherited = []
         fresh = False
         if expr is not None:
+            from ..dom import expand_locals
+            try:
+                expr = expand_locals(expr, s_.func.node, 3)
+            except Exception:      # noqa: BLE001 - expansion is best effort; the unexpanded expression is still checked
+                pass
             for n in ast.walk(expr):
                 if isinstance(n, ast.Call) and norm(n.func).split(".")[-1] in ("uuid4", "uuid1", "ULID", "new_ulid", "uuid7"):
                     fresh = True
